@@ -321,6 +321,9 @@ S!(c03_step_fee_first_skip, 2, scan_step(80, 64, 2, true, false, true, false, fa
 //@ harness: c03_step_stave_second_pipe props=C03 also=C07,C08 tier=quick class=functional covers=1 mem=14 timeout=1800 est=300 args=-Z,restrict-vtable
 //@ bounds: layer/stave filter on a pipe-like reader: first packet has the same layer but stave+32 (skipped by read-and-discard, empty payload), second matches and is loaded
 S!(c03_step_stave_second_pipe, 2, scan_step(64, 74, 3, false, true, false, true, false, false));
+//@ harness: c03_step_stave_second_skip props=C03,C07 tier=quick class=functional covers=1 mem=14 timeout=1800 est=100 args=-Z,restrict-vtable
+//@ bounds: layer/stave filter, payloads skipped by seek (file-like): the first packet is header-only (offset_to_next = 64), has the same layer but stave+32 and is skipped by the filter loop; the second matches: delivered offset = P+64, tracker/reader at P+138
+S!(c03_step_stave_second_skip, 2, scan_step(64, 74, 3, true, false, false, true, false, false));
 //@ harness: c03_step_stave_none props=C03 also=C14 tier=quick class=functional covers=1 mem=14 timeout=1800 est=300 args=-Z,restrict-vtable
 //@ bounds: layer/stave filter value not present: both packets visited and skipped, then UnexpectedEof
 S!(c03_step_stave_none, 3, scan_step(64, 74, 3, true, false, false, false, false, false));
@@ -336,8 +339,8 @@ S!(c14_step_stats_same_fee, 2, {
     scan_step_d(d, 74, 80, 1, true, false, false, true, true, false)
 });
 //@ harness: c14_step_stats_filter props=C14 also=C03 tier=thorough class=functional covers=1 mem=28 timeout=2400 est=400 args=-Z,restrict-vtable
-//@ bounds: mid-stream call with a link filter, first packet skipped: RDHSeen counts both visited packets, RDHFiltered the delivered one, both links observed
-S!(c14_step_stats_filter, 2, scan_step(74, 80, 1, false, false, false, true, true, false));
+//@ bounds: mid-stream call with a link filter, payloads skipped, first packet skipped by the filter: RDHSeen counts both visited packets, RDHFiltered the delivered one, both links and FEE ids observed
+S!(c14_step_stats_filter, 2, scan_step(74, 80, 1, true, false, false, true, true, false));
 //@ harness: c14_step_stats_mid props=C14 also=C03 tier=quick class=functional covers=1 mem=20 timeout=1800 est=300 args=-Z,restrict-vtable
 //@ bounds: mid-stream call (P > 0), no filter: no initial statistics again; counters equal ground truth
 S!(c14_step_stats_mid, 2, scan_step(74, 80, 0, false, false, true, false, true, false));
